@@ -194,6 +194,7 @@ type FuncVC struct {
 	lenient bool
 	inert bool
 	replayTemplate string
+	iterInit       map[string]bool
 	covers         map[*Clause][]string // ensures clause A ==> B: (reach && A) at each return
 	replayArgs []replayArg
 	results    []Val
